@@ -431,8 +431,9 @@ example :
   line misses the lattice points, or leans left, or has integral slope and is walked downwards.
   Under these hypotheses (the region in which the library has no finding T01…) the whole pipeline
   `sample_ceil_y/floor_y → edge_init ×2 → rasterize_edges` adds exactly `Spec.addShape`.
-  Not covered: offsets ≠ 0 (a translation of all coordinates when nothing wraps) and the case in which
-  no sample row is inside (nothing is drawn) — both covered by the correspondence and the Spec oracle. -/
+  `rasterizeTrapezoid_nothing`: no sample row inside.  `rasterizeTrapezoid_offsets`: offsets that do not wrap are a
+  translation.  `addTrapezoids_eq_addShapes`: lists.  (`pixman_add_traps` is stated for one `pixman_trap_t` and
+  offsets 0.) -/
 
 open Pixman.Lemmas.TrapShape Pixman.Lemmas.TrapSetup Pixman.Lemmas.TrapTri in
 theorem rasterizeTrapezoid_eq_addShape (n : Nat) (hn : Depth n) (img : Img) (hwf : ImgWF n img)
@@ -485,6 +486,38 @@ example : addTrap 8 (Img.mk' 4 2 0) 0 0 ⟨40000, 200000, 0, 40000, 150000, 1310
            fun g _ h1 h2 => Or.inr (Or.inl (by decide))⟩
   · exact fun h => absurd h (by decide)
 
+open Pixman.Lemmas.TrapShape Pixman.Lemmas.TrapSetup Pixman.Lemmas.TrapTri in
+/-- when no sample row of the image is inside the trapezoid, nothing is drawn and the Spec adds nothing -/
+theorem rasterizeTrapezoid_nothing (n : Nat) (hn : Depth n) (img : Img) (hwf : ImgWF n img)
+    (hh : img.height ≤ 32767) (tr : Trapezoid) (htop : InI32 tr.top) (hbot : InI32 tr.bottom)
+    (hbt : lastRow n img.height tr.bottom < firstRow n tr.top) :
+    rasterizeTrapezoid n img tr 0 0 = img ∧ addShape n img.width img.height img.rows (shapeOf tr) = img.rows :=
+  Pixman.Lemmas.TrapSetup.rasterizeTrapezoid_nothing n hn img hwf hh tr htop hbot hbt
+
+open Pixman.Lemmas.TrapSetup in
+/-- offsets that do not wrap: `pixman_rasterize_trapezoid (image, trap, x_off, y_off)` rasterises the trapezoid
+    moved by `(x_off, y_off)` pixels (for every depth and image, inside or outside the exact region) -/
+theorem rasterizeTrapezoid_offsets (n : Nat) (img : Img) (tr : Trapezoid) (xOff yOff : Int)
+    (hx : InI32 (xOff * 65536)) (hy : InI32 (yOff * 65536))
+    (htop : InI32 (tr.top + yOff * 65536)) (hbot : InI32 (tr.bottom + yOff * 65536))
+    (hc : InI32 (tr.left.p1.x + xOff * 65536) ∧ InI32 (tr.left.p1.y + yOff * 65536) ∧
+          InI32 (tr.left.p2.x + xOff * 65536) ∧ InI32 (tr.left.p2.y + yOff * 65536) ∧
+          InI32 (tr.right.p1.x + xOff * 65536) ∧ InI32 (tr.right.p1.y + yOff * 65536) ∧
+          InI32 (tr.right.p2.x + xOff * 65536) ∧ InI32 (tr.right.p2.y + yOff * 65536)) :
+    rasterizeTrapezoid n img tr xOff yOff = rasterizeTrapezoid n img (moveTz tr (xOff * 65536) (yOff * 65536)) 0 0 :=
+  Pixman.Lemmas.TrapSetup.rasterizeTrapezoid_offsets n img tr xOff yOff hx hy htop hbot hc
+
+open Pixman.Lemmas.TrapShape Pixman.Lemmas.TrapSetup Pixman.Lemmas.TrapTri in
+/-- `pixman_add_trapezoids (image, 0, 0, n, traps)`: every valid trapezoid in the exact region (`TzExact`: int32
+    coordinates and either no sample row inside, or `InitOK`/`RowsOK`/`X1Ok` for both sides) — the image is the
+    Spec counts of the valid trapezoids added one after the other, the invalid ones skipped -/
+theorem addTrapezoids_eq_addShapes (n : Nat) (hn : Depth n) (traps : List Trapezoid) (img : Img) (hwf : ImgWF n img)
+    (hh : img.height ≤ 32767) (hall : ∀ tr ∈ traps, tr.valid = true → TzExact n img.height tr) :
+    addTrapezoids n img 0 0 traps =
+      { img with rows := traps.foldl (fun rows tr =>
+          if tr.valid then addShape n img.width img.height rows (shapeOf tr) else rows) img.rows } :=
+  Pixman.Lemmas.TrapSetup.addTrapezoids_eq_addShapes n hn traps img hwf hh hall
+
 /-! ## R4 — abutting shapes tile seamlessly (consequences of "each sample is in exactly one")
 
   Stated on the Spec counts (`rowCount`, `pixelCount`) and, through R3, on the model's rows.
@@ -507,6 +540,14 @@ theorem pixelCount_edgesplit (n : Nat) (s : Shape) (m : EdgeLine)
     (hm : ∀ y, s.top ≤ y → y < s.bottom → s.left.snapX y ≤ m.snapX y ∧ m.snapX y ≤ s.right.snapX y) (c r : Int) :
     pixelCount n { s with right := m } c r + pixelCount n { s with left := m } c r = pixelCount n s c r :=
   Pixman.Lemmas.TrapRow.pixelCount_edgesplit n s m hm c r
+
+open Pixman.Lemmas.TrapSetup in
+/-- whole-pixel offsets commute with rasterisation (Spec level): the shape moved by `(ox, oy)` pixels has, at pixel
+    `(c + ox, r + oy)`, the sample count the original has at `(c, r)`; with `rasterizeTrapezoid_offsets` (the
+    rasteriser draws the moved trapezoid) and R3 this is the model-level statement -/
+theorem pixelCount_move (n : Nat) (s : Shape) (ox oy c r : Int) :
+    pixelCount n (moveShape s (ox * 65536) (oy * 65536)) (c + ox) (r + oy) = pixelCount n s c r :=
+  Pixman.Lemmas.TrapSetup.pixelCount_move n s ox oy c r
 
 /-- two spans abutting at `mx`, rasterised one after the other into an a8 row, give the row of the
     union span (model level, from R3) -/
@@ -560,6 +601,58 @@ theorem triangle_inside_iff (tri : Triangle) (hf : TriFits tri) (hnd : area2 tri
 theorem addTriangles_eq (n : Nat) (img : Img) (xOff yOff : Int) (tris : List Triangle) :
     addTriangles n img xOff yOff tris =
       addTrapezoids n img xOff yOff (tris.flatMap fun t => [(triangleToTrapezoids t).1, (triangleToTrapezoids t).2]) := rfl
+
+open Pixman.Lemmas.TrapShape Pixman.Lemmas.TrapSetup Pixman.Lemmas.TrapTri in
+/-- R5 end to end: `pixman_add_triangles (image, 0, 0, 1, tri)` adds to every pixel the triangle's own sample
+    count (`Spec.triCount`, no decomposition), when the two trapezoids are in the exact region of R3 -/
+theorem addTriangle_eq_triCount (n : Nat) (hn : Depth n) (img : Img) (hwf : ImgWF n img)
+    (hh : img.height ≤ 32767) (tri : Triangle) (hf : TriFits tri) (hnd : area2 tri ≠ 0)
+    (h0 : (triangleToTrapezoids tri).1.valid = true → TzExact n img.height (triangleToTrapezoids tri).1)
+    (h1 : (triangleToTrapezoids tri).2.valid = true → TzExact n img.height (triangleToTrapezoids tri).2) :
+    addTriangles n img 0 0 [tri] = { img with rows := addTri n img.width img.height img.rows (triOf tri) } :=
+  Pixman.Lemmas.TrapSetup.addTriangle_eq_triCount n hn img hwf hh tri hf hnd h0 h1
+
+open Pixman.Lemmas.TrapShape Pixman.Lemmas.TrapSetup Pixman.Lemmas.TrapTri in
+/-- non-vacuity of `addTriangle_eq_triCount`: a triangle whose three sides lean left, vertices in an order that
+    needs two of the three swaps; a8 image of 5×2 pixels; result `#[#[0, 0, 0, 79, 58], #[0, 5, 50, 22, 0]]` -/
+example : addTriangles 8 (Img.mk' 5 2 0) 0 0 [⟨⟨100000, 120000⟩, ⟨300000, 2185⟩, ⟨280000, 50000⟩⟩] =
+    { Img.mk' 5 2 0 with rows := (addTri 8 5 2 (Img.mk' 5 2 0).rows (triOf ⟨⟨100000, 120000⟩, ⟨300000, 2185⟩, ⟨280000, 50000⟩⟩)) } := by
+  have htz : triangleToTrapezoids ⟨⟨100000, 120000⟩, ⟨300000, 2185⟩, ⟨280000, 50000⟩⟩ =
+      (⟨2185, 50000, ⟨⟨300000, 2185⟩, ⟨100000, 120000⟩⟩, ⟨⟨300000, 2185⟩, ⟨280000, 50000⟩⟩⟩,
+       ⟨50000, 120000, ⟨⟨300000, 2185⟩, ⟨100000, 120000⟩⟩, ⟨⟨280000, 50000⟩, ⟨100000, 120000⟩⟩⟩) := by decide
+  have hTL : lineOf ⟨⟨300000, 2185⟩, ⟨100000, 120000⟩⟩ = ⟨300000, 2185, 100000, 120000⟩ := by decide
+  have hTR : lineOf ⟨⟨300000, 2185⟩, ⟨280000, 50000⟩⟩ = ⟨300000, 2185, 280000, 50000⟩ := by decide
+  have hRL : lineOf ⟨⟨280000, 50000⟩, ⟨100000, 120000⟩⟩ = ⟨280000, 50000, 100000, 120000⟩ := by decide
+  have t0 : firstRow 8 2185 = 2185 := by decide
+  have b0 : lastRow 8 ((Img.mk' 5 2 0).height : Int) 50000 = 45875 := by decide
+  have t1 : firstRow 8 50000 = 50244 := by decide
+  have b1 : lastRow 8 ((Img.mk' 5 2 0).height : Int) 120000 = 115780 := by decide
+  apply Pixman.Props.C12.addTriangle_eq_triCount 8 (Or.inr (Or.inr rfl)) (Img.mk' 5 2 0) (imgWF_mk' 8 5 2 0 (by decide) (by decide))
+    (by decide)
+  · simp only [TriFits]; decide
+  · simp only [area2]; decide
+  · intro _
+    rw [htz]
+    refine ⟨by simp only [InI32]; decide, by simp only [InI32]; decide, by simp only [InI32]; decide, Or.inr ⟨?_, ?_, ?_, ?_, ?_, ?_⟩⟩
+    · simp only [t0, b0]; decide
+    · simp only [t0, hTL]; exact ⟨by decide, by decide, by decide, by decide, by decide, by decide, by decide⟩
+    · simp only [t0, hTR]; exact ⟨by decide, by decide, by decide, by decide, by decide, by decide, by decide⟩
+    · simp only [t0, b0, hTL]
+      exact ⟨fun g _ h1 h2 => by simp only [FitAt, lineNum]; omega, fun g _ h1 h2 => Or.inr (Or.inl (by decide))⟩
+    · simp only [t0, b0, hTR]
+      exact ⟨fun g _ h1 h2 => by simp only [FitAt, lineNum]; omega, fun g _ h1 h2 => Or.inr (Or.inl (by decide))⟩
+    · exact fun h => absurd h (by decide)
+  · intro _
+    rw [htz]
+    refine ⟨by simp only [InI32]; decide, by simp only [InI32]; decide, by simp only [InI32]; decide, Or.inr ⟨?_, ?_, ?_, ?_, ?_, ?_⟩⟩
+    · simp only [t1, b1]; decide
+    · simp only [t1, hTL]; exact ⟨by decide, by decide, by decide, by decide, by decide, by decide, by decide⟩
+    · simp only [t1, hRL]; exact ⟨by decide, by decide, by decide, by decide, by decide, by decide, by decide⟩
+    · simp only [t1, b1, hTL]
+      exact ⟨fun g _ h1 h2 => by simp only [FitAt, lineNum]; omega, fun g _ h1 h2 => Or.inr (Or.inl (by decide))⟩
+    · simp only [t1, b1, hRL]
+      exact ⟨fun g _ h1 h2 => by simp only [FitAt, lineNum]; omega, fun g _ h1 h2 => Or.inr (Or.inl (by decide))⟩
+    · exact fun h => absurd h (by decide)
 
 /-- non-vacuity: a triangle given with its lowest vertex first and clockwise (all three swaps happen),
     one side horizontal -/
